@@ -22,14 +22,17 @@ REQUIRED_THEOREMS = REQUIRED_THEOREMS_FINAL
 
 def case_line(c):
     return ("%s N=%d D=%d d=%d solver=%s seed=%d exact=%d data=%s"
-            % (c["topic"], c["N"], c["D"], c["d"], c["solver"], c["seed"], 1 if c["exact"] else 0, sp.mat_text(c["rows"])))
+            % (c["topic"], c["N"], c["D"], c["d"], c["solver"], c["seed"], 1 if c["exact"] else 0, sp.mat_text(c["rows"]))
+            + sp.decoy_fields(c))
 
 
 def parse_case(line):
     f = sp.fields(line)
     rows = [[Fraction(v) for v in r.split(",")] for r in f["data"].split(";")]
-    return {"topic": line.split(" ", 1)[0], "N": int(f["N"]), "D": int(f["D"]), "d": int(f["d"]), "solver": f["solver"],
-            "seed": int(f.get("seed", "1")), "exact": f.get("exact") == "1", "rows": rows, "label": "replay", "rank": None}
+    c = {"topic": line.split(" ", 1)[0], "N": int(f["N"]), "D": int(f["D"]), "d": int(f["d"]), "solver": f["solver"],
+         "seed": int(f.get("seed", "1")), "exact": f.get("exact") == "1", "rows": rows, "label": "replay", "rank": None}
+    sp.parse_decoys(f, c)
+    return c
 
 
 def subcase(c, keep_rows, keep_cols=None):
@@ -37,6 +40,9 @@ def subcase(c, keep_rows, keep_cols=None):
     cols = list(range(c["D"])) if keep_cols is None else keep_cols
     s["rows"] = [[c["rows"][i][a] for a in cols] for i in keep_rows]
     s["N"], s["D"] = len(keep_rows), len(cols)
+    if c.get("sel"):
+        s["sel"] = [c["sel"][i] for i in keep_rows]
+        s["all"] = [[row[a] for a in cols] for row in c["all"]]
     s["d"] = max(1, min(c["d"], s["N"] - 1, s["D"]))
     s["exact"] = c["exact"] and sp.is_pow2(s["N"])
     return s
@@ -193,6 +199,7 @@ def account(ctx, c, v):
     ctx.stat("D=1" if c["D"] == 1 else "D<=4" if c["D"] <= 4 else "D<=12" if c["D"] <= 12 else "D<=30")
     ctx.stat("d=D" if c["d"] == c["D"] else "d<D")
     ctx.stat("mode:exact" if c["exact"] else "mode:approx")
+    ctx.stat("id-range:shuffled-subset-with-decoys" if c.get("sel") else "id-range:identity")
     if c.get("threads"):
         ctx.stat("omp_threads:%d" % c["threads"])
     if v.get("robust"):
@@ -218,6 +225,10 @@ def gen_cases(ctx, quick):
     def add(label, topic, solver, rows, N, D, d, exact, rank):
         cases.append({"label": label, "topic": topic, "solver": solver, "rows": [[Fraction(v) for v in row] for row in rows],
                       "N": N, "D": D, "d": d, "seed": r.range(1, 10 ** 6), "exact": exact, "rank": rank})
+        # about half of the cases: a NON-IDENTITY id range (shuffled subset of a larger id space, decoy samples in between)
+        if r.chance(1, 2) and N <= 64:
+            c = cases[-1]
+            c["all"], c["sel"] = sp.with_decoys_points(r, c["rows"])
 
     def ds_for(N, D, rank):
         top = min(N - 1, D)
@@ -261,6 +272,14 @@ def gen_cases(ctx, quick):
             top = min(N - 1, D)
             if sp.centred_points_rank(rows) >= top:
                 add("scaled", "agree", "dense", rows, N, D, top, False, rank)
+        # 2c. mean far from the origin compared with the spread (mean ~2^20 .. 2^36, spread ~10): centring must happen before
+        #     any product, otherwise the covariance / projection cancel catastrophically
+        N = r.choice([4, 8, 16]) if r.chance(1, 2) else r.range(3, 12)
+        D = r.range(2, 4)
+        off = [r.choice([-1, 1]) * 2 ** r.range(20, 36) + r.range(-5, 5) for _ in range(D)]
+        rows = [[o + v for o, v in zip(off, row)] for row in sp.low_rank_points(r, N, D, D, amp=2)]
+        for d in ds_for(N, D, D)[:2]:
+            add("large-mean", "pca", "dense", rows, N, D, d, False, None)
         # 3. dyadic (non-integer) features
         N = r.range(2, 16)
         D = r.range(1, 5)
